@@ -270,6 +270,16 @@ impl GroupApi for G2 {
     }
 }
 
+/// k with 3k = 1 mod m (m not divisible by 3)
+fn inv3(m: &N) -> N {
+    for j in 1u64..3 {
+        let t = n(1) + n(j) * m;
+        if (&t % n(3)).is_zero() {
+            return t / n(3);
+        }
+    }
+    unreachable!()
+}
 /// cube root in F_q (q = 1 mod 3), by Adleman-Manders-Miller style search in the 3-Sylow part
 pub fn cbrt_fq(a: &N) -> Option<N> {
     let p = q();
@@ -289,7 +299,7 @@ pub fn cbrt_fq(a: &N) -> Option<N> {
         s += 1;
     }
     // x0 = a^k with 3k = 1 mod m  => x0^3 = a * a^(3k-1), and a^(3k-1) has 3-power order
-    let k = invm(&n(3), &m).unwrap();
+    let k = inv3(&m);
     let mut x = a.modpow(&k, p);
     // generator of the 3-Sylow subgroup
     let mut g = n(2);
@@ -331,7 +341,7 @@ pub fn cbrt_f2(a: &F2) -> Option<F2> {
         m /= n(3);
         s += 1;
     }
-    let k = invm(&n(3), &m).unwrap();
+    let k = inv3(&m);
     let x = a.pow(&k);
     let mut gen = None;
     'o: for ga in 0u64..10 {
